@@ -310,6 +310,25 @@ CHECKS = {
         note="One malformed input per run (thorough: larger alphabets, both "
              "roles); virtual threads under the default schedule; the peer "
              "is nfcpy itself (air) or sim/peer.py."),
+    'C08': dict(
+        category='exploration', design='2/C08',
+        technique="deviation-bounded exhaustive mutation of valid tag images "
+                  "and activation responses on hostile tag simulators with a "
+                  "command budget",
+        text="From valid base layouts of all four tag types every single "
+             "management byte x 256 values, all pairs (thorough: triples) "
+             "over a boundary alphabet, all 16-bit values of multi-byte "
+             "fields, activation response variants (all 65536 HR0/HR1 pairs, "
+             "ATS with every subset of TA/TB/TC, SENSB_RES FSCI/FWI, SENSF_RES "
+             "IC codes, GET_VERSION answers), a tag that stops answering after "
+             "every k and hostile well-framed answers (R(ACK)/S(WTX)/chaining "
+             "for ever, empty READ BINARY) are run through nfc.tag.activate "
+             "and tag.ndef; the result must be None or an NDEF object with "
+             "length <= capacity whose octets lie inside the data area of the "
+             "independent layout model, with no exception and a bounded "
+             "number of commands.",
+        note="Tag answers are arbitrary in content but well framed at RF "
+             "level; budget = 4 x memory units + 64 commands."),
 }
 
 NOT_YET = "check not built yet in this round (see DESIGN.md section 2 for the planned design)"
